@@ -94,7 +94,23 @@ def run(ctx):
                 ch.append(left)
             cuts.append(ch)
         for ch in cuts:
-            tcases.append((rng.choice('sc'), s, ch))
+            tcases.append((rng.choice('scr'), s, ch))
+    # long streams whose first chunk (glued to BEGIN on the server side) is larger than one read of the handshake: what
+    # the authentication code read past BEGIN must stay IN FRONT of what the transport reads next
+    for _ in range(6 if ctx.quick else 60):
+        import struct
+        ms = []
+        for i in range(rng.choice([40, 60])):
+            m = bytearray(gen_wire.rand_message(rng, maxargs=2))
+            while len(m) > 200 or len(m) < 64:
+                m = bytearray(gen_wire.rand_message(rng, maxargs=2))
+            struct.pack_into('<I' if m[0:1] == b'l' else '>I', m, 8, i + 1)
+            ms.append(bytes(m))
+        s = b''.join(ms)
+        n = len(s)
+        for first in (n, 2041, 2042, 3000, rng.randrange(2043, n)):
+            for m in 'sr':
+                tcases.append((m, s, [first, n - first] if first < n else [n]))
     env = dict(os.environ, ASAN_OPTIONS='detect_leaks=0:abort_on_error=0', DBUS_FATAL_WARNINGS='0')
 
     def run_part(part):
